@@ -176,6 +176,24 @@ fn battery(rng: &mut Rng, obs: &Obs, vec_dim: Option<usize>, vec_samples: &[Vec<
         qs.push(Q::Lex(q));
     }
     qs.push(Q::Lex(base("zzzqqqabsentword".into())));
+    // the whole text of up to two short frames (a query close to a frame's own sketch: the sketch
+    // pre-filter then yields candidates and really narrows the engine's search)
+    let mut shorts: Vec<String> = active.iter().filter_map(|f| f.search_text.clone())
+        .filter(|t| t.len() <= 24 && !words_of(t, 3).is_empty() && t.chars().all(|c| c.is_ascii_alphanumeric() || c == ' ')).collect();
+    shorts.sort(); shorts.dedup();
+    for _ in 0..2 { if !shorts.is_empty() { let t = rng.pick(&shorts).clone(); qs.push(Q::Lex(base(t))); } }
+    // "self queries": all sketch tokens of one frame's index text — the query's SimHash equals the frame's,
+    // so the sketch pre-filter yields candidates and really narrows the engine's search
+    for _ in 0..2 {
+        if active.is_empty() { break; }
+        let f = *rng.pick(&active);
+        if let Some(t) = &f.search_text {
+            let toks = memvid_core::types::tokenize_for_sketch(t);
+            if !toks.is_empty() && toks.len() <= 80 && toks.iter().all(|w| w.chars().all(|c| c.is_ascii_alphanumeric())) {
+                let mut b = base(toks.join(" ")); b.top_k = 50; qs.push(Q::Lex(b));
+            }
+        }
+    }
     // ---- vector
     let dim = vec_dim.unwrap_or(3);
     let mk = |rng: &mut Rng, d: usize| -> Vec<f32> { (0..d).map(|_| (rng.below(2001) as f32 - 1000.0) / 256.0).collect() };
@@ -280,7 +298,7 @@ struct Outcome {
     cases: Vec<(String, bool)>,
 }
 
-struct Ctx<'a> { drv: Option<&'a mut Driver>, thorough: bool, verbose: bool }
+struct Ctx<'a> { drv: Option<&'a mut Driver>, thorough: bool, verbose: bool, no_rv: bool }
 
 fn hexs(b: &[u8]) -> String { hexw(b) }
 
@@ -434,6 +452,9 @@ fn run_history(acts: &[Act], ctx: &mut Ctx) -> Outcome {
 enum Fail { Oracle(String, String, bool), Disagree(String, String, String), Dead(String) }
 
 fn check(world: &mut World, ctx: &mut Ctx, out: &mut Outcome, i: usize, rt: bool, rl: bool, rv: bool, seed: u64) -> Option<Fail> {
+    let timing = std::env::var("C28_TIMING").is_ok();
+    let t0 = std::time::Instant::now();
+    let rv = rv && !ctx.no_rv;
     // 1. commit
     let step = match guarded(AssertUnwindSafe(|| world.exec(&Op::Commit))) { Ok(s) => s, Err(p) => return Some(Fail::Dead(format!("act {i} check: commit panicked: {p}"))) };
     if let Ack::Err(k, d) = &step.ack { return Some(Fail::Dead(format!("act {i} check: commit failed: {k} {d}"))); }
@@ -446,11 +467,13 @@ fn check(world: &mut World, ctx: &mut Ctx, out: &mut Outcome, i: usize, rt: bool
     let samples: Vec<Vec<f32>> = live_side0.vec_docs.as_ref().map(|d| d.iter().map(|(_, e)| e.iter().map(|b| f32::from_bits(*b)).collect()).collect()).unwrap_or_default();
     let dim = samples.first().map(|s: &Vec<f32>| s.len()).or(live_side0.vec_manifest.map(|m| m.1 as usize).filter(|d| *d > 0));
     let qs = battery(&mut rng, &obs, dim, &samples, ctx.thorough);
+    if timing { eprintln!("  [t] commit+battery-gen {:?}", t0.elapsed()); }
     // 3. live
     let live: Vec<Ans> = qs.iter().map(|q| run_q(world.mem(), q)).collect();
     let live_side = side_of(world.mem());
     let img = file_img(&world.path);
     if let Some(e) = &img.err { return Some(Fail::Dead(format!("act {i} check: cannot read the committed TOC: {e}"))); }
+    if timing { eprintln!("  [t] live done {:?}", t0.elapsed()); }
     // 4. doctored copy
     let copy = world.dir.path().join("doctored.mv2");
     let _ = std::fs::remove_file(&copy);
@@ -465,6 +488,7 @@ fn check(world: &mut World, ctx: &mut Ctx, out: &mut Outcome, i: usize, rt: bool
     };
     let doc_img = file_img(&copy);
     let _ = std::fs::remove_file(&copy);
+    if timing { eprintln!("  [t] doctor done {:?}", t0.elapsed()); }
     // 5. read-only
     world.mem = None;
     let (ro, ro_side): (Vec<Ans>, Side) = match guarded(AssertUnwindSafe(|| Memvid::open_read_only(&world.path))) {
@@ -472,6 +496,7 @@ fn check(world: &mut World, ctx: &mut Ctx, out: &mut Outcome, i: usize, rt: bool
         Ok(Err(e)) => return Some(Fail::Oracle("read-only-open-fails".into(), format!("act {i}: open_read_only after commit: {e}"), false)),
         Err(p) => return Some(Fail::Oracle("read-only-open-fails".into(), format!("act {i}: open_read_only after commit panicked: {p}"), false)),
     };
+    if timing { eprintln!("  [t] ro done {:?}", t0.elapsed()); }
     // 6. reopen read-write; the history goes on with this handle
     match open_rw(&world.path) {
         Ok(m) => { world.mem = Some(m); world.batch = None; }
@@ -480,6 +505,7 @@ fn check(world: &mut World, ctx: &mut Ctx, out: &mut Outcome, i: usize, rt: bool
     let rw: Vec<Ans> = qs.iter().map(|q| run_q(world.mem(), q)).collect();
     let rw_side = side_of(world.mem());
     out.queries += 4 * qs.len() as u64;
+    if timing { eprintln!("  [t] rw done {:?} ({} queries)", t0.elapsed(), qs.len()); }
 
     // ------------------------------------------------------------------ model correspondence
     let mut predicted_sketch_change = false;
@@ -608,6 +634,16 @@ fn gen_history(rng: &mut Rng, thorough: bool) -> Vec<Act> {
 fn put(kind: PayloadKind, len: usize, seed: u64, ts: i64) -> PutSpec { PutSpec::simple(PayloadSpec::new(kind, len, seed), ts) }
 fn put_emb(kind: PayloadKind, len: usize, seed: u64, ts: i64, dim: usize) -> PutSpec { let mut p = put(kind, len, seed, ts); p.emb = Some(EmbSpec { dim, seed: seed + 77 }); p }
 
+/// a seed for which the generated ASCII payload of `len` characters is exactly one whole word of the vocabulary
+fn seed_for_word(len: usize, from: u64) -> u64 {
+    let mut s = from;
+    loop {
+        let t = String::from_utf8(PayloadSpec::new(PayloadKind::Ascii, len, s).bytes()).unwrap_or_default();
+        if VOCAB.contains(&t.to_ascii_lowercase().as_str()) { return s; }
+        s += 1;
+    }
+}
+
 fn corpus() -> Vec<(String, Vec<Act>)> {
     let chk = |seed| Act::Check { rt: true, rl: true, rv: false, seed };
     vec![
@@ -615,9 +651,16 @@ fn corpus() -> Vec<(String, Vec<Act>)> {
             Act::Op(Op::Put(put_emb(PayloadKind::Ascii, 120, 1, 100, 3))), Act::Op(Op::Put(put_emb(PayloadKind::Ascii, 200, 2, 90, 3))),
             Act::Op(Op::Put(put_emb(PayloadKind::Utf8, 80, 3, 100, 3))), chk(11),
             Act::Op(Op::Delete { id: 1 }), Act::Op(Op::Put(put_emb(PayloadKind::Ascii, 60, 4, 95, 3))), chk(12)]),
-        ("binary-frame-leaves-sketch-gap".into(), vec![
-            Act::Op(Op::Put(put(PayloadKind::Bin, 20, 5, 100))), Act::Op(Op::Put(put(PayloadKind::Ascii, 150, 6, 101))),
-            Act::Op(Op::Put(put(PayloadKind::Ascii, 90, 7, 102))), chk(13)]),
+        // frame 0 has no text, hence no sketch: the track holds ids [1, 2]; written without ids and read back
+        // as [0, 1] (C39 sketch-track-frame-ids-not-stored) the pre-filter names other frames after reopen
+        ("binary-frame-leaves-sketch-gap".into(), { let a = seed_for_word(5, 1000); let b = seed_for_word(5, a + 1); vec![
+            Act::Op(Op::Put(put(PayloadKind::Bin, 20, 5, 100))), Act::Op(Op::Put(put(PayloadKind::Ascii, 5, a, 101))),
+            Act::Op(Op::Put(put(PayloadKind::Ascii, 5, b, 102))), chk(13)] }),
+        // commit_skip_indexes applies frame 0 without the engine attached: no sketch for it; frame 1 is
+        // sketched by the next commit: track ids [1], read back as [0]
+        ("skip-indexes-commit-leaves-sketch-gap".into(), vec![
+            Act::Op(Op::Put(put(PayloadKind::Ascii, 40, 31, 100))), Act::Op(Op::CommitSkip),
+            Act::Op(Op::Put(put(PayloadKind::Ascii, 60, 32, 101))), chk(16), chk(17)]),
         ("instant-index-then-probe".into(), vec![
             Act::Op(Op::Put(put(PayloadKind::Ascii, 100, 8, 100))), Act::Op(Op::Commit),
             Act::Op(Op::Put({ let mut p = put(PayloadKind::Ascii, 140, 9, 101); p.instant_index = true; p })), Act::Probe { seed: 21 },
@@ -642,14 +685,15 @@ fn record(sum: &mut Summary, args: &Args, drv: &mut Option<Driver>, label: &str,
     let want_sig: Option<String> = out.oracle.as_ref().map(|o| o.0.clone());
     let t0 = std::time::Instant::now();
     let thorough = args.thorough;
+    let no_rv = args.extra.get("rv").map(|s| s == "0").unwrap_or(false);
     let mut fails = |cand: &[Act]| -> bool {
         if t0.elapsed().as_secs() > budget_s { return false; }
-        let mut ctx = Ctx { drv: drv.as_mut(), thorough, verbose: false };
+        let mut ctx = Ctx { drv: drv.as_mut(), thorough, verbose: false, no_rv };
         let o = run_history(cand, &mut ctx);
         match &want_sig { Some(s) => o.oracle.as_ref().map(|x| &x.0) == Some(s), None => o.disagree.is_some() && o.oracle.is_none() }
     };
     let small = shrink_list(&out.acts, &mut fails);
-    let mut ctx = Ctx { drv: drv.as_mut(), thorough, verbose: false };
+    let mut ctx = Ctx { drv: drv.as_mut(), thorough, verbose: false, no_rv };
     let o2 = run_history(&small, &mut ctx);
     let case = json!({"acts": serde_json::to_value(&small).unwrap(), "label": label});
     let known: Vec<String> = args.extra.get("known").map(|s| s.split(',').map(|x| x.to_string()).collect()).unwrap_or_default();
@@ -671,11 +715,12 @@ fn main() {
          at probe points (uncommitted instant-index puts): every lexical hit names a frame that contains the query words; \
          case = one query of one check/probe point, non-trivial = the live answer has at least one hit; distinct = query + live answer");
     sum.expect_branches(&["check", "lex-nonempty", "vec-nonempty", "timeline-nonempty", "probe-with-instant-index-pending", "delete-acked", "put-with-embedding", "chunked-put"]);
+    let no_rv = args.extra.get("rv").map(|s| s == "0").unwrap_or(false);
     if args.mode == "replay" {
         let case = load_replay(args.replay_file.as_ref().expect("replay file"));
         let input = case.get("input").unwrap_or(&case);
         let acts: Vec<Act> = serde_json::from_value(input["acts"].clone()).expect("acts in replay file");
-        let mut ctx = Ctx { drv: drv.as_mut(), thorough: args.thorough, verbose: true };
+        let mut ctx = Ctx { drv: drv.as_mut(), thorough: args.thorough, verbose: true, no_rv };
         let out = run_history(&acts, &mut ctx);
         if let Some((sig, what, m)) = &out.oracle { println!("ORACLE {sig} (model predicts it: {m}): {what}"); }
         if let Some((w, m, im)) = &out.disagree { println!("DISAGREE {w}\n  model: {}\n  impl : {}", cut(m, 600), cut(im, 600)); }
@@ -687,8 +732,11 @@ fn main() {
     let n_hist: usize = args.extra.get("nhist").and_then(|s| s.parse().ok()).unwrap_or(if args.thorough { 120 } else { 10 });
     let max_fail: usize = args.extra.get("maxfail").and_then(|s| s.parse().ok()).unwrap_or(3);
     let budget = args.extra.get("shrink").and_then(|s| s.parse().ok()).unwrap_or(if args.thorough { 240 } else { 60 });
+    let only = args.extra.get("only").cloned();
+    let verbose = args.extra.get("verbose").map(|s| s == "1").unwrap_or(false);
     for (label, acts) in corpus() {
-        let mut ctx = Ctx { drv: drv.as_mut(), thorough: args.thorough, verbose: false };
+        if let Some(o) = &only { if *o != label { continue; } }
+        let mut ctx = Ctx { drv: drv.as_mut(), thorough: args.thorough, verbose, no_rv };
         let out = run_history(&acts, &mut ctx);
         sum.branch("corpus");
         record(&mut sum, &args, &mut drv, &label, out, budget);
@@ -698,7 +746,7 @@ fn main() {
         if sum.oracle_violations.len() + sum.disagreements.len() >= max_fail { break; }
         let mut r = rng.fork();
         let acts = gen_history(&mut r, args.thorough);
-        let mut ctx = Ctx { drv: drv.as_mut(), thorough: args.thorough, verbose: false };
+        let mut ctx = Ctx { drv: drv.as_mut(), thorough: args.thorough, verbose: false, no_rv };
         let out = run_history(&acts, &mut ctx);
         record(&mut sum, &args, &mut drv, &format!("gen-{k}"), out, budget);
     }
